@@ -3,8 +3,8 @@ From Coq Require Import String.
 From PraatIO Require Export Check.Common IO.IoModel.
 Open Scope Z_scope.
 
-(* as the source stands: are point marks un-doubled by the long-form reader *)
-Definition POINT_MARK_UNDOUBLED : bool := false.
+(* as the source stands: point marks are un-doubled by the long-form reader *)
+Definition POINT_MARK_UNDOUBLED : bool := true.
 
 Definition otext_eqb := option_eqb text_eqb.
 
